@@ -349,6 +349,17 @@ example : HistInv demo .trace := C18_hist_inv _ demoOps .trace
 example : ∃ ws, traceWrites demo demoNow 2 100 = .ok ws ∧ ws.length = 3 := by
   refine ⟨_, rfl, ?_⟩; decide +kernel
 
+/-- `C18_lossless` and `C18_retrievable` instantiated: their hypotheses are satisfiable, and the
+    second one is used non-trivially (the event is really gone after 2 writes). -/
+example : ∃ ws, phaseWrites demo demoNow (.trace 2 100) = .ok ws ∧
+    ∀ k, Cov demo (applyAll demo (ws.take k)) :=
+  ⟨_, rfl, fun k => C18_lossless demo (C18_fin_unique _ demoOps) demoNow (.trace 2 100) trivial _ rfl k⟩
+
+example : ∃ ws, traceWrites demo demoNow 2 100 = .ok ws ∧
+    (⟨.app, str "0003", str "p.a#0000000003,9700.25,h,pending,x"⟩ : Ev) ∈ demo.live ∧
+    (⟨.app, str "0003", str "p.a#0000000003,9700.25,h,pending,x"⟩ : Ev) ∉ (applyAll demo (ws.take 2)).live := by
+  refine ⟨_, rfl, ?_, ?_⟩ <;> decide +kernel
+
 /-- `download_batch` finds the archived event by its instance and nothing of other instances. -/
 example : ((runPhase demo demoNow (.trace 2 100) none).1.snaps.map
       (fun sn => download Codec.plain (histTable .trace) sn.blob (str "p.a#0000000001"))) =
